@@ -165,8 +165,11 @@ class MediaQuery(cssutils.util._NewBase):  # cssutils.util.Base):
 
         # parse
         ok, seq, store, unused = ProdParser().parse(mediaText, 'MediaQuery', prods)
-        self._wellformed = ok
         if ok:
+            # (a refused text leaves the query and its state as they are)
+            self._wellformed = True
+            # nothing of the old query stays
+            self._mediaType = ''
             try:
                 media_type = store['media_type']
             except KeyError:
